@@ -10,6 +10,7 @@ import (
 	"time"
 
 	chunker "github.com/ipfs/boxo/chunker"
+	"github.com/ipfs/boxo/internal/verifhook"
 	dag "github.com/ipfs/boxo/ipld/merkledag"
 	ft "github.com/ipfs/boxo/ipld/unixfs"
 	uio "github.com/ipfs/boxo/ipld/unixfs/io"
@@ -214,6 +215,7 @@ func (d *Directory) updateChildEntry(c child) error {
 // generating the new node reflecting the update. It also stores the
 // new node in the DAG layer.
 func (d *Directory) localUpdate(c child) (*dag.ProtoNode, error) {
+	verifhook.Point("Directory.localUpdate:lock.Lock")
 	d.lock.Lock()
 	defer d.lock.Unlock()
 
@@ -554,6 +556,7 @@ func (d *Directory) GetNode() (ipld.Node, error) {
 }
 
 func (d *Directory) getNode(cacheClean bool) (ipld.Node, error) {
+	verifhook.Point("Directory.getNode:lock.Lock")
 	d.lock.Lock()
 	defer d.lock.Unlock()
 
